@@ -20,7 +20,27 @@ def pickToJson : Pick String → Json
 def parsePick (j : Json) : Pick String :=
   if strD j "r" == "ok" then .ok (strD j "binding") (strD j "dest") else .refused
 
-def handle (line : Json) : Json :=
+def svcOf : String → Svc
+  | "acs" => .acs | "slo" => .slo | "mni" => .mni | "attr_cs" => .attrCs | _ => .sso
+def svcName : Svc → String
+  | .acs => "acs" | .slo => "slo" | .mni => "mni" | .attrCs => "attr_cs" | .sso => "sso"
+def kindOf (s : String) : ReqKind :=
+  if s == "authn" then .authn else if s == "logout" then .logout else if s == "attr_query" then .attrQuery
+  else if s == "manage_nameid" then .manageNameId else if s.startsWith "soap_only" then .soapOnly else .unsupported
+
+/-- The requester's endpoint tables as the harness derived them from its own metadata specification:
+    `tables` null = unknown entity; `tables.<descr>` null = the entity has no such descriptor. -/
+def lookupOf (c : Json) (idp : Bool) (s : Svc) : Option (List (Endpoint String)) :=
+  (obj? c "tables").bind fun t => (obj? t (if idp then "idpsso" else "spsso")).map fun d =>
+    (arrD d (svcName s)).map parseEp
+
+def optPickToJson : Option (Pick String) → Json
+  | none => Json.mkObj [("r", "nodest")]
+  | some p => pickToJson p
+def parseOptPick (j : Json) : Option (Pick String) :=
+  if strD j "r" == "nodest" then none else some (parsePick j)
+
+def handle1 (line : Json) : Json :=
   let c := (obj? line "case").getD Json.null
   let impl := (obj? line "impl").getD Json.null
   match strD c "op" with
@@ -101,6 +121,82 @@ def handle (line : Json) : Json :=
     let want := disco.any (fun loc => preS loc url)
     Json.mkObj [("model", Json.mkObj [("approved", m)]), ("path", if m then "vr/approved" else "vr/refused"),
       ("spec_model", m == want), ("spec_impl", boolD impl "approved" == want)]
+  | "rargs" =>
+    let soap := "urn:oasis:names:tc:SAML:2.0:bindings:SOAP"
+    let selfIsSp := strD c "side" == "sp"
+    let kind := kindOf (strD c "kind")
+    let lk := lookupOf c
+    let arg := strList c "bindings_arg"
+    let pb := str? c "protocol_binding"
+    let prefJ := (obj? c "preferred").getD Json.null
+    let pref : Svc → List String := fun s => strList prefJ (svcName s)
+    let url := str? c "url"
+    let idx := str? c "index"
+    let m := responseArgsK truthyS soap "" selfIsSp kind lk arg pb pref url idx
+    let path := "rargs/" ++ strD c "side" ++ "/" ++ strD c "kind" ++ "/" ++ (match m with
+      | none => "nodest" | some .refused => "refused"
+      | some (.ok _ _) => if arg == [soap] then "soap-backchannel" else "ok")
+    Json.mkObj [("model", optPickToJson m), ("path", Json.str path),
+      ("spec_model", specArgsK truthyS soap "" selfIsSp kind lk arg pb pref url idx m),
+      ("spec_impl", specArgsK truthyS soap "" selfIsSp kind lk arg pb pref url idx (parseOptPick impl))]
+  | "pickdirect" =>
+    let selfIsSp := strD c "side" == "sp"
+    let s := svcOf (strD c "service")
+    let lk := lookupOf c
+    let arg := strList c "bindings_arg"
+    let prefJ := (obj? c "preferred").getD Json.null
+    let pref : Svc → List String := fun s => strList prefJ (svcName s)
+    let m := pickDirect truthyS selfIsSp s lk arg pref
+    let bs := effBindings truthyS arg none (pref s)
+    Json.mkObj [("model", pickToJson m),
+      ("path", Json.str ("pickdirect/" ++ strD c "side" ++ "/" ++ strD c "service" ++ (match m with | .ok _ _ => "/ok" | .refused => "/refused"))),
+      ("spec_model", specPick truthyS (lk selfIsSp s) bs none none m),
+      ("spec_impl", specPick truthyS (lk selfIsSp s) bs none none (parsePick impl))]
+  | "sso_any" =>
+    let named := parseEps c "eps"
+    let idps := (arrD c "idps_eps").map (fun t => (asArr t).map parseEp)
+    let ent := str? c "entity"
+    let b := strD c "binding"
+    let m := ssoLocationAny truthyS ent named idps b
+    let iv := str? impl "dest"
+    Json.mkObj [("model", Json.mkObj [("dest", optStr m)]),
+      ("path", Json.str ("sso_any/" ++ toString idps.length ++ (if m.isSome then "/found" else "/refused"))),
+      ("spec_model", specLocAny truthyS ent named idps b m), ("spec_impl", specLocAny truthyS ent named idps b iv)]
   | op => Json.mkObj [("proto_error", Json.str ("unknown op " ++ op))]
+
+/-- Sub-case of a history step under metadata version `k`. -/
+def atVersion (q : Json) (k : Nat) : Json :=
+  let q := q.setObjVal! "eps" (((arrD q "eps_v")[k]?).getD Json.null)
+  match ((arrD q "tables_v")[k]?) with
+  | some t => q.setObjVal! "tables" t
+  | none => q
+
+def handle (line : Json) : Json :=
+  let c := (obj? line "case").getD Json.null
+  let impl := (obj? line "impl").getD Json.null
+  if strD c "op" != "hist" then handle1 line else
+  let steps : List (HStep Nat Json) := (arrD c "steps").map fun st =>
+    match strD st "t" with
+    | "write" => .write (nat? st "v")
+    | "reload" => .reload
+    | _ => .ask ((obj? st "q").getD Json.null)
+  let answer : Nat → Json → Json := fun k q =>
+    ((handle1 (Json.mkObj [("case", atVersion q k), ("impl", Json.null)])).getObjVal? "model").toOption.getD Json.null
+  let spec : Nat → Json → Json → Bool := fun k q o =>
+    boolD (handle1 (Json.mkObj [("case", atVersion q k), ("impl", o)])) "spec_impl"
+  let v0 := natD c "init"
+  let m := runHist answer (some v0) v0 steps
+  let outJ : HOut Json → Json := fun
+    | .reloaded ok => Json.mkObj [("reloaded", ok)]
+    | .ans o => o
+  let implOuts : List (HOut Json) := (arrD impl "outs").map fun j =>
+    match bool? j "reloaded" with
+    | some ok => .reloaded ok
+    | none => .ans j
+  let nrel := (m.filter (fun o => match o with | .reloaded true => true | _ => false)).length
+  Json.mkObj [("model", Json.mkObj [("outs", jarr (m.map outJ))]),
+    ("path", Json.str ("hist/" ++ strD c "form" ++ "/reloads=" ++ toString nrel)),
+    ("spec_model", specHist spec (some v0) v0 steps m),
+    ("spec_impl", specHist spec (some v0) v0 steps implOuts)]
 
 def main : IO Unit := serve handle
